@@ -1018,5 +1018,277 @@ pub proof fn theorem_section_roundtrip(fs: Seq<FileV>)
     }
 }
 
+// ---------------------------------------------------------------- (3b) the round trip at the level of the note's bytes
+/// the lines, each terminated by a newline
+pub open spec fn term(ls: Seq<Seq<u8>>, n: int) -> Seq<u8>
+    decreases n
+{
+    if n <= 0 { Seq::<u8>::empty() } else { term(ls, n - 1) + ls[n - 1] + seq![0x0au8] }
+}
+pub proof fn lemma_term_prefix(x: Seq<Seq<u8>>, y: Seq<Seq<u8>>, n: int)
+    requires 0 <= n <= x.len(), n <= y.len(), forall|i: int| 0 <= i < n ==> x[i] == y[i],
+    ensures term(x, n) == term(y, n),
+    decreases n
+{
+    if n > 0 { lemma_term_prefix(x, y, n - 1); }
+}
+pub proof fn lemma_term_concat(a: Seq<Seq<u8>>, b: Seq<Seq<u8>>, n: int)
+    requires 0 <= n <= b.len(),
+    ensures term(a + b, a.len() + n) == term(a, a.len() as int) + term(b, n),
+    decreases n
+{
+    if n == 0 {
+        lemma_term_prefix(a + b, a, a.len() as int);
+        assert(term(a, a.len() as int) + term(b, 0) =~= term(a, a.len() as int));
+    } else {
+        lemma_term_concat(a, b, n - 1);
+        assert((a + b)[a.len() + n - 1] == b[n - 1]);
+        assert(term(a + b, a.len() + n) =~= term(a, a.len() as int) + term(b, n));
+    }
+}
+pub proof fn lemma_ser_entries_term(es: Seq<EntryV>, n: int)
+    requires 0 <= n <= es.len(),
+    ensures ser_entries(es, n) == term(entry_lines(es), n),
+    decreases n
+{
+    if n > 0 {
+        lemma_ser_entries_term(es, n - 1);
+        assert(entry_lines(es)[n - 1] == entry_line(es[n - 1]));
+        assert(ser_entry(es[n - 1]) =~= entry_line(es[n - 1]) + seq![0x0au8]);
+        assert(ser_entries(es, n) =~= term(entry_lines(es), n));
+    }
+}
+pub proof fn lemma_ser_files_term(fs: Seq<FileV>, n: int)
+    requires 0 <= n <= fs.len(),
+    ensures ser_files(fs, n) == term(att_lines(fs, n), att_lines(fs, n).len() as int),
+    decreases n
+{
+    if n > 0 {
+        lemma_ser_files_term(fs, n - 1);
+        let f = fs[n - 1];
+        let a = att_lines(fs, n - 1); let b = file_lines(f);
+        lemma_term_concat(a, b, b.len() as int);
+        let h = seq![path_line(f.path)]; let el = entry_lines(f.entries);
+        lemma_term_concat(h, el, el.len() as int);
+        lemma_ser_entries_term(f.entries, f.entries.len() as int);
+        assert(term(h, 1) =~= path_line(f.path) + seq![0x0au8]) by { assert(term(h, 0) =~= Seq::<u8>::empty()); }
+        assert(ser_file(f) =~= term(b, b.len() as int));
+    }
+}
+pub open spec fn clean_line(l: Seq<u8>) -> bool { !has_byte(l, 0x0a) && !(l.len() > 0 && l.last() == 0x0d) }
+pub open spec fn clean_lines(ls: Seq<Seq<u8>>) -> bool { forall|i: int| 0 <= i < ls.len() ==> clean_line(#[trigger] ls[i]) }
+pub proof fn lemma_split_term(ls: Seq<Seq<u8>>, n: int)
+    requires 0 <= n <= ls.len(), clean_lines(ls),
+    ensures split_of(term(ls, n), 0x0a) == ls.subrange(0, n).push(Seq::<u8>::empty()),
+    decreases n
+{
+    let e = Seq::<u8>::empty();
+    if n == 0 {
+        assert(split_of(e, 0x0a) =~= seq![e]);
+        assert(ls.subrange(0, 0).push(e) =~= seq![e]);
+    } else {
+        lemma_split_term(ls, n - 1);
+        let t0 = term(ls, n - 1); let l = ls[n - 1];
+        assert(clean_line(l));
+        lemma_split_append(t0, l, 0x0a);
+        lemma_split_sep(t0 + l, 0x0a);
+        assert(term(ls, n) =~= (t0 + l).push(0x0au8));
+        let s0 = ls.subrange(0, n - 1).push(e);
+        assert(s0.drop_last().push(s0.last() + l).push(e) =~= ls.subrange(0, n).push(e));
+    }
+}
+/// when the first text ends a piece (its last piece is empty), splitting the concatenation is concatenating the splits
+pub proof fn lemma_split_concat(a: Seq<u8>, j: Seq<u8>, c: u8)
+    requires split_of(a, c).last().len() == 0,
+    ensures split_of(a + j, c) == split_of(a, c).drop_last() + split_of(j, c),
+    decreases j.len()
+{
+    lemma_split_nonempty(a, c); lemma_split_nonempty(j, c);
+    let sa = split_of(a, c);
+    if j.len() == 0 {
+        assert(a + j =~= a);
+        assert(split_of(j, c) =~= seq![Seq::<u8>::empty()]);
+        assert(sa.last() =~= Seq::<u8>::empty());
+        assert(sa.drop_last() + seq![Seq::<u8>::empty()] =~= sa);
+    } else {
+        let j0 = j.drop_last(); let x = j.last();
+        lemma_split_concat(a, j0, c);
+        lemma_split_nonempty(j0, c);
+        assert((a + j).drop_last() =~= a + j0);
+        let sj0 = split_of(j0, c);
+        let pre = split_of(a + j0, c);
+        if x == c {
+            assert(pre.push(Seq::<u8>::empty()) =~= sa.drop_last() + sj0.push(Seq::<u8>::empty()));
+        } else {
+            assert(pre.drop_last() =~= sa.drop_last() + sj0.drop_last());
+            assert(pre.last() == sj0.last());
+            assert(pre.drop_last().push(pre.last().push(x)) =~= sa.drop_last() + sj0.drop_last().push(sj0.last().push(x)));
+        }
+    }
+}
+/// `lines()` of newline-terminated clean lines followed by more text: the lines, then the lines of the rest
+pub proof fn lemma_lines_term(ls: Seq<Seq<u8>>, j: Seq<u8>)
+    requires clean_lines(ls),
+    ensures lines_of(term(ls, ls.len() as int) + j) == ls + lines_of(j),
+{
+    let n = ls.len() as int;
+    let a = term(ls, n);
+    lemma_split_term(ls, n);
+    assert(ls.subrange(0, n) =~= ls);
+    lemma_split_concat(a, j, 0x0a);
+    lemma_split_nonempty(j, 0x0a);
+    let sj = split_of(j, 0x0a);
+    let ps = split_of(a + j, 0x0a);
+    assert(ls.push(Seq::<u8>::empty()).drop_last() =~= ls);
+    assert(ps =~= ls + sj);
+    assert(ps.last() == sj.last());
+    let head = Seq::new((ps.len() - 1) as nat, |i: int| strip_cr(ps[i]));
+    let headj = Seq::new((sj.len() - 1) as nat, |i: int| strip_cr(sj[i]));
+    assert(head =~= ls + headj) by {
+        assert forall|i: int| 0 <= i < head.len() implies head[i] == (ls + headj)[i] by {
+            if i < n { assert(ps[i] == ls[i]); assert(clean_line(ls[i])); } else { assert(ps[i] == sj[i - n]); }
+        }
+    }
+    if sj.last().len() == 0 { assert(lines_of(a + j) =~= ls + lines_of(j)); } else { assert(head.push(ps.last()) =~= ls + headj.push(sj.last())); }
+}
+pub proof fn lemma_first_div_at(ls: Seq<Seq<u8>>, k: int)
+    requires 0 <= k < ls.len(), ls[k] == divider(), forall|i: int| 0 <= i < k ==> (#[trigger] ls[i]) != divider(),
+    ensures first_div(ls) == k,
+{
+    lemma_first_div(ls);
+    let f = first_div(ls);
+    if f > k { assert(ls[k] != divider()); }
+    if f < k { assert(ls[f] != divider()); }
+}
+/// the text of a range list consists of digits, '-' and ','
+pub open spec fn range_byte(b: u8) -> bool { (0x30 <= b <= 0x39) || b == 0x2d || b == 0x2c }
+pub proof fn lemma_fmt_bytes(rs: Seq<LineRange>, n: int)
+    requires 0 <= n <= rs.len(),
+    ensures forall|i: int| 0 <= i < join_of(renders(rs).subrange(0, n), 0x2c).len() ==> range_byte(#[trigger] join_of(renders(rs).subrange(0, n), 0x2c)[i]),
+    decreases n
+{
+    let ps = renders(rs).subrange(0, n);
+    if n > 0 {
+        lemma_fmt_bytes(rs, n - 1);
+        let r = rs[n - 1];
+        assert(ps.last() == render(r));
+        assert(ps.drop_last() =~= renders(rs).subrange(0, n - 1));
+        assert forall|i: int| 0 <= i < render(r).len() implies range_byte(#[trigger] render(r)[i]) by {
+            match r {
+                LineRange::Single(l) => { axiom_dec(l); }
+                LineRange::Range(a, b) => { axiom_dec(a); axiom_dec(b); let da = dec(a); if i < da.len() { assert(render(r)[i] == da[i]); } else if i > da.len() { assert(render(r)[i] == dec(b)[i - da.len() - 1]); } }
+            }
+        }
+        let jn = join_of(ps, 0x2c);
+        if n == 1 { assert(jn == ps[0]); } else {
+            let j0 = join_of(ps.drop_last(), 0x2c);
+            assert(jn == j0 + seq![0x2cu8] + ps.last());
+            assert forall|i: int| 0 <= i < jn.len() implies range_byte(#[trigger] jn[i]) by {
+                if i < j0.len() { assert(jn[i] == j0[i]); } else if i > j0.len() { assert(jn[i] == render(r)[i - j0.len() - 1]); }
+            }
+        }
+    }
+}
+/// every line the serializer writes for a well-formed list is a clean line and is not the divider
+pub proof fn lemma_att_lines_clean(fs: Seq<FileV>, n: int)
+    requires wf_files(fs), 0 <= n <= fs.len(),
+    ensures clean_lines(att_lines(fs, n)), forall|i: int| 0 <= i < att_lines(fs, n).len() ==> (#[trigger] att_lines(fs, n)[i]) != divider(),
+    decreases n
+{
+    if n > 0 {
+        lemma_att_lines_clean(fs, n - 1);
+        let f = fs[n - 1];
+        assert(wf_file(f));
+        let a = att_lines(fs, n - 1); let b = file_lines(f);
+        assert forall|i: int| 0 <= i < b.len() implies clean_line(#[trigger] b[i]) && b[i] != divider() by {
+            if i == 0 {
+                let p = f.path; let l = path_line(p);
+                assert(b[0] == l);
+                if needs_q(p) {
+                    assert(l[0] == 0x22); assert(divider()[0] == 0x2d);
+                    assert(l.last() == 0x22);
+                    if has_byte(l, 0x0a) { let q = choose|q: int| 0 <= q < l.len() && l[q] == 0x0a; assert(0 < q < l.len() - 1); assert(p[q - 1] == 0x0a); }
+                } else {
+                    axiom_trim(p);
+                }
+            } else {
+                let e = f.entries[i - 1];
+                assert(wf_entry(e));
+                let l = entry_line(e);
+                assert(b[i] == l);
+                assert(l[0] == 0x20); assert(divider()[0] == 0x2d);
+                let srt = sorted_by_start(e.ranges);
+                axiom_sorted(e.ranges);
+                lemma_join_last(srt);
+                lemma_fmt_bytes(srt, srt.len() as int);
+                assert(renders(srt).subrange(0, srt.len() as int) =~= renders(srt));
+                let rtxt = fmt_ranges(e.ranges);
+                assert(l.last() == rtxt.last());
+                if has_byte(l, 0x0a) {
+                    let q = choose|q: int| 0 <= q < l.len() && l[q] == 0x0a;
+                    if q < 2 { } else if q < 2 + e.hash.len() { assert(l[q] == e.hash[q - 2]); } else if q == 2 + e.hash.len() { } else { assert(l[q] == rtxt[q - 3 - e.hash.len()]); assert(range_byte(rtxt[q - 3 - e.hash.len()])); }
+                }
+            }
+        }
+        let all = att_lines(fs, n);
+        assert forall|i: int| 0 <= i < all.len() implies clean_line(#[trigger] all[i]) && all[i] != divider() by {
+            if i < a.len() { assert(all[i] == a[i]); } else { assert(all[i] == b[i - a.len()]); }
+        }
+    }
+}
+/// ROUND TRIP (whole note): for a well-formed attestation list and ANY metadata text, what serialize_to_string writes is
+/// accepted by deserialize_from_string exactly when serde accepts the re-joined metadata lines, and the attestations that
+/// come back are the same files, hashes and ranges (ranges in the serializer's sorted order)
+pub proof fn theorem_note_roundtrip(fs: Seq<FileV>, jt: Seq<u8>)
+    requires wf_files(fs),
+    ensures ({
+        let out = ser_files(fs, fs.len() as int) + divider_line() + jt;
+        let js = join_of(lines_of(jt), 0x0a);
+        parse_note(out) == (if json_ok(js) { Some((norm(fs), json_val(js))) } else { None })
+    }),
+{
+    let n = fs.len() as int;
+    let al = att_lines(fs, n);
+    let ls = al.push(divider());
+    lemma_ser_files_term(fs, n);
+    lemma_att_lines_clean(fs, n);
+    assert(clean_lines(ls)) by {
+        assert forall|i: int| 0 <= i < ls.len() implies clean_line(#[trigger] ls[i]) by {
+            if i < al.len() { assert(ls[i] == al[i]); } else {
+                let d = divider();
+                assert(d.last() == 0x2d);
+                if has_byte(d, 0x0a) { let q = choose|q: int| 0 <= q < d.len() && d[q] == 0x0a; assert(d[q] == 0x2d); }
+            }
+        }
+    }
+    lemma_term_concat(al, seq![divider()], 1);
+    assert(al + seq![divider()] =~= ls);
+    assert(term(seq![divider()], 1) =~= divider_line()) by { assert(term(seq![divider()], 0) =~= Seq::<u8>::empty()); }
+    let out = ser_files(fs, n) + divider_line() + jt;
+    assert(out =~= term(ls, ls.len() as int) + jt);
+    lemma_lines_term(ls, jt);
+    let all = lines_of(out);
+    assert(all == ls + lines_of(jt));
+    assert forall|i: int| 0 <= i < al.len() implies (#[trigger] all[i]) != divider() by { assert(all[i] == al[i]); }
+    assert(all[al.len() as int] == divider());
+    lemma_first_div_at(all, al.len() as int);
+    assert(all.subrange(0, al.len() as int) =~= al);
+    assert(all.subrange(al.len() as int + 1, all.len() as int) =~= lines_of(jt));
+    theorem_section_roundtrip(fs);
+}
+/// the well-formedness premise is satisfiable (guards the two theorems against a vacuous premise)
+pub proof fn lemma_wf_inhabited()
+    ensures exists|fs: Seq<FileV>| wf_files(fs) && fs.len() == 1,
+{
+    let e = EntryV { hash: seq![0x61u8], ranges: seq![LineRange::Single(1)] };
+    let f = FileV { path: seq![0x61u8], entries: seq![e] };
+    let fs = seq![f];
+    assert(!has_byte(e.hash, 0x20) && !has_byte(e.hash, 0x0a));
+    assert(!has_byte(f.path, 0x0a));
+    assert(wf_entry(e));
+    assert(wf_file(f));
+    assert(wf_files(fs) && fs.len() == 1);
+}
+
 } // verus!
 fn main() {}
